@@ -92,6 +92,13 @@ CHECKS = {
             "mismatch laws on the grid, every vector (IDs straddling octet boundaries, VCF lengths 0..7, refusals incl. negative "
             "IDs, 8 rules x frame types, 13 managed-parameter variants per sample) is executed on the classes, and random "
             "headers / frames / perturbed parameter sets are recorded and validated by TLC.", "DESIGN.md 5/C17", ""),
+    "C18": (True, "model_checking",
+            "TLA+ spec of the nine reserved CFDP message kinds; TLC grid model checking + vector replay; TLC trace validation",
+            "CfdpMsg.tla gives the 'cfdp' + type + fields layout of every reserved message inside a message-to-user TLV, the "
+            "classification sets and an independent parameter reader; TLC checks that the TLV decodes, is recognised as reserved "
+            "and yields the original parameters, every vector (all ID width pairs, enum members, name grid, full / overfull "
+            "value field, non-reserved and non-UTF-8 contents) is executed on the classes via unpack / from_tlv / TlvHolder, and "
+            "random messages and message octets are recorded and validated by TLC.", "DESIGN.md 5/C18", ""),
     "C19": (True, "model_checking",
             "TLA+ state machine of the counters incl. character-level file model; TLC exhaustive for widths 1..4 with restarts "
             "and file faults; every transition replayed on real providers/files; TLC trace validation of histories > 2^W",
@@ -108,5 +115,5 @@ CHECKS = {
             "validated by TLC.", "DESIGN.md 5/C20", ""),
 }
 NOT_YET = {}
-for _i in [4, 9, 10, 11, 18]:
+for _i in [4, 9, 10, 11]:
     NOT_YET[f"C{_i:02d}"] = "check not built yet in this revision of /verif (construction in progress, see DESIGN.md 11)"
